@@ -4,11 +4,15 @@ usage: seed_import.py C08 C07 ...   (runs seed_eval's confirmation; keeps only c
 import json, os, shutil, sys
 sys.path.insert(0, os.path.dirname(os.path.abspath(__file__)))
 import seed_eval
-for p in sys.argv[1:]:
-    for k in sorted(os.listdir("/tmp/wt-out/" + p)):
-        d = "/tmp/wt-out/%s/%s" % (p, k)
+SRC = "/tmp/wt-out"; TAG = ""
+args = sys.argv[1:]
+if "--src" in args: i = args.index("--src"); SRC = args[i + 1]; del args[i:i + 2]
+if "--tag" in args: i = args.index("--tag"); TAG = args[i + 1] + "-"; del args[i:i + 2]
+for p in args:
+    for k in sorted(os.listdir("%s/%s" % (SRC, p))):
+        d = "%s/%s/%s" % (SRC, p, k)
         if not os.path.exists(d + "/patch.diff"): continue
-        dst = "/verif/seeded/%s-%s" % (p, k)
+        dst = "/verif/seeded/%s-%s%s" % (p, TAG, k)
         if os.path.exists(dst): print(dst, "exists"); continue
         o = seed_eval.evaluate(d, props=[p])
         if not o.get("confirmed"): print("NOT CONFIRMED", d, {x: o.get(x) for x in ("demo_patched_rc", "demo_clean_rc", "suite", "error")}); continue
